@@ -240,8 +240,6 @@ def run_order_substitutions(ctx):
                     {"dict": repr(c[5]), "ordered": repr(c[6]), "coq": v,
                      "correspondence": "Models.Substitution."
                      "order_substitutions"}, False)
-                if len(ctx.violations) > 20:
-                    return
 
 
 # --------------------------------------------------------------------------
@@ -984,7 +982,31 @@ def run_minimize(ctx):
                  "Models.Substitution.minimize_tensor_indices"}, False)
 
 
+MAX_PER_CLAUSE = 4
+
+
 def run(ctx):
+    # at most MAX_PER_CLAUSE replays per violated clause (all are counted)
+    seen, orig = {}, ctx.violation
+
+    def capped(key, what, replay, found_input):
+        cat = ":".join(key.split(":")[:2])
+        seen[cat] = seen.get(cat, 0) + 1
+        if seen[cat] <= MAX_PER_CLAUSE:
+            orig(key, what, replay, found_input)
+    ctx.violation = capped
+    try:
+        _run(ctx)
+    finally:
+        ctx.violation = orig
+        for cat, n in seen.items():
+            if n > MAX_PER_CLAUSE:
+                ctx.note(f"{cat}: {n} violating inputs, first "
+                         f"{MAX_PER_CLAUSE} reported")
+        ctx.extra["violating_inputs_per_clause"] = dict(seen)
+
+
+def _run(ctx):
     run_order_substitutions(ctx)
     run_permute(ctx)
     run_lowest(ctx)
